@@ -96,6 +96,26 @@ def case_roundtrip(case):
     vs = []
     with tempfile.TemporaryDirectory(prefix="vf-c16-") as d:
         cur = orig
+        # history of the process: an earlier load with unusual options (refused or not) and an earlier parameter set that
+        # used the same labels with other expressions must leave no trace
+        try:
+            with warnings.catch_warnings():
+                warnings.simplefilter("ignore")
+                pf = os.path.join(d, "prime.csv")
+                save_parameters(build([{k: enc(v) for k, v in param_spec("zz.p", 0.1 + 0.2).items()}]), pf)
+                for kw0 in ({"sep": "; "}, {"sep": "\\s+"}, {"sep": ","}):
+                    try:
+                        load_parameters(pf, format_name="csv", **kw0)
+                    except Exception:  # noqa: BLE001, S110
+                        pass
+                first_plain = next((s_["label"] for s_ in case["specs"] if s_.get("expression") is None), None)
+                if first_plain is not None:
+                    build([dict(s_, expression=f"${first_plain} * 1.0") if s_.get("expression") is not None else s_ for s_ in case["specs"]])
+        except Exception:  # noqa: BLE001, S110
+            pass
+        with warnings.catch_warnings():
+            warnings.simplefilter("ignore")
+            cur = orig = build(case["specs"])
         for cycle in (1, 2):
             f = os.path.join(d, f"p{cycle}.{fmt}")
             kw = dict(case.get("save_kwargs", {}))
@@ -231,6 +251,7 @@ def run(run: core.Run):
     sets.append([param_spec("1.1", 1.0), param_spec("1.10", 2.0)])
     sets.append([param_spec("b.sum", expr="$a.1 + $c.2", vary=False), param_spec("a.1", 1.5), param_spec("c.2", 2.5)])
     sets.append([param_spec("z", 1.0), param_spec("y", expr="$z * 3", vary=False), param_spec("x", 2.0)])
+    sets.append([param_spec("e.1", expr="$e.2 * 2", vary=False), param_spec("e.2", expr="$v + 1", vary=False), param_spec("v", 1.5)])
     sets.append([param_spec("01", 1.0), param_spec("1", 2.0)])
     sets.append([param_spec("1e5", 1.0), param_spec("true", 2.0), param_spec("nan_", 3.0), param_spec("None_", 4.0)])
     cases = []
